@@ -205,6 +205,27 @@ func (propC10) GenAt(index int, seed uint64, tier string) *Case {
 		}
 		rec.Ops = append(rec.Ops, Op{K: "render"}, Op{K: "render_frag", I: 0})
 	}
+	if r.Chance(0.08) {
+		// rendered (maybe successfully), then made invalid, then the failing call retried: what
+		// an earlier call left behind (a memoised output, a recorded checksum) must not turn
+		// the retry into a success nor reach the target
+		first := Op{K: "render"}
+		if r.Chance(0.3) {
+			first = Op{K: "save", F: &FSPlan{Target: "fresh"}}
+		}
+		rec.Ops = append(rec.Ops, first,
+			Op{K: "add", Node: &Node{K: "var", S: g.newID(), N: []*Node{{K: "bad"}}}})
+		for i := r.Range(2, 3); i > 0; i-- {
+			switch r.Intn(4) {
+			case 0:
+				rec.Ops = append(rec.Ops, Op{K: "save", F: &FSPlan{Target: r.Pick([]string{"again", "existing", "fresh"})}})
+			case 1:
+				rec.Ops = append(rec.Ops, Op{K: "render_body"})
+			default:
+				rec.Ops = append(rec.Ops, Op{K: "render"})
+			}
+		}
+	}
 	c := &Case{Property: "C10", Seed: seed, Tier: tier, Recipe: rec}
 	c.Cfg, _ = json.Marshal(cfg)
 	c.Execs = []ExecSpec{{Mode: "shuffle", Seed: Mix(seed, 5)}}
@@ -361,6 +382,17 @@ func (propC10) Check(c *Case) (*Violation, *RunInfo) {
 			}
 			continue
 		}
+		if fileUnformattable(c.Recipe, i) && a.Obj == "file" && (op.K == "render" || op.K == "save") {
+			// ground truth from the recipe, not from a rebuild by the code under test: the File
+			// holds the declaration `var X = )(`, which is not Go, and formatting is on - the call
+			// cannot succeed whatever earlier calls of the history did (a reference run of the same
+			// history would share a memoised output or a recorded checksum with the run it judges)
+			ri.count("unformattable_files", 1)
+			if a.OK && a.Panic == "" {
+				fail("C10-failure-reported-as-success", "the File contains `var X = )(` and is formatted, so rendering cannot succeed, yet the call returned nil (writer got %d bytes)", len(a.Out))
+				continue
+			}
+		}
 		if ref.Panic != "" {
 			ri.count("reference_panics", 1)
 			continue // a panicking tree is C02's business
@@ -447,6 +479,24 @@ func (propC10) Check(c *Case) (*Violation, *RunInfo) {
 	ri.Inter = digest(ri.Frozen, keys)
 	ri.States = keys
 	return viol, ri
+}
+
+// fileUnformattable reports whether, at op i, the File holds a declaration that is not Go
+// (`var X = )(`, added as such by the generator) while formatting is on.
+func fileUnformattable(rec *Recipe, i int) bool {
+	bad, noformat := false, false
+	for j := 0; j <= i && j < len(rec.Ops); j++ {
+		op := rec.Ops[j]
+		switch op.K {
+		case "noformat":
+			noformat = op.I != 0
+		case "add":
+			if n := op.Node; n != nil && n.K == "var" && len(n.N) == 1 && n.N[0] != nil && n.N[0].K == "bad" {
+				bad = true
+			}
+		}
+	}
+	return bad && !noformat
 }
 
 // fileUnrenderable reports whether, at op i, the File's own tree contains a node that
